@@ -42,7 +42,7 @@ macro_rules! order_int {
             let nr = <Nearest as Interpolate<$t>>::interpolate(Some(l), Some(h), q, len);
             let md = <Midpoint as Interpolate<$t>>::interpolate(Some(l), Some(h), q, len);
             let li = <Linear as Interpolate<$t>>::interpolate(Some(l), Some(h), q, len);
-            assert!(lw <= nr && nr <= hg && lw <= md && md <= hg && lw <= li && li <= hg, "Lower <= {Nearest, Midpoint, Linear} <= Higher");
+            assert!(lw <= nr && nr <= hg && lw <= md && md <= hg && lw <= li && li <= hg, "Lower <= Nearest, Midpoint, Linear <= Higher");
             if l == h {
                 assert!(lw == l && hg == l && nr == l && md == l && li == l, "all five coincide when lower == higher (integral (N-1)q)");
             }
